@@ -301,6 +301,7 @@ def run(rep, tier):
         clause_f(facts, rep)
         clause_g(facts, rep)
         clause_h(facts, rep)
+        clause_i(facts, rep)
     rep.trust('clang 14 front end and constant evaluator', 'Python big integers / fractions', 'Clinger exact fast-path conditions',
               'simd_str2int contract: the digit count it stores never exceeds the requested count')
     rep.assumptions += [
@@ -771,3 +772,82 @@ def clause_h(facts, rep):
                         rep.check('counted' in stp, 'E2.decimal-point', f.qn, 'digit arm ending at block %d moves the decimal point' % p, locline(s_['loc']),
                                   'an integer digit that is not stored must still be counted for d->dp (the value is otherwise scaled down by a power of ten)', facts.config)
     rep.require(n >= 2, 'C04.h: digit paths of SetDecimal decided: %d' % n)
+
+
+def clause_i(facts, rep):
+    """Dropped digits are remembered.  In every digit loop of parseNumber that accumulates the mantissa or touches
+    the truncation flag (loops over exponent digits do neither), each path through the body that consumes a digit
+    without adding it to the mantissa sets the flag - unless the path is taken only for the digit '0'.  The converters
+    round a truncated mantissa correctly only when they are told (they then bracket it with man and man + 1)."""
+    n = 0
+    seen = set()
+    for f in facts.functions:
+        if f.cls_qn != PARSER or f.short != 'parseNumber' or f.name.split('<')[0] in seen:
+            continue
+        seen.add(f.name.split('<')[0])
+        man = flag = None
+        for bid, i, s, e in f.walk():
+            if e.get('k') == 'call' and e.get('cname') == 'parseFloatEiselLemire64' and len(e.get('args', [])) >= 5:
+                a2, a4 = strip(e['args'][2]), strip(e['args'][4])
+                if a2 is not None and a2.get('k') == 'ref':
+                    man = a2['id']
+                if a4 is not None and a4.get('k') == 'ref':
+                    flag = a4['id']
+        rep.require(man is not None and flag is not None, 'C04.i: mantissa / truncation flag of parseNumber not bound')
+        if man is None or flag is None:
+            continue
+        rep.fn(f)
+        heads = [bid for bid, B in f.blocks.items() if B.get('term') and B['term'].get('cls') == 'WhileStmt' and B['term'].get('cond') is not None
+                 and any(x.get('k') == 'call' and x.get('cname') == 'is_digit' for x in walk(B['term']['cond']))]
+        for h in heads:
+            start = f.blocks[h]['succs'][0]
+            paths = []
+
+            def rec(b, trail, facts_):
+                if len(paths) > 200 or len(trail) > 40:
+                    raise AnalysisBroken('C04.i: digit loop body too large')
+                if b == h:
+                    paths.append((trail, facts_))
+                    return
+                B = f.blocks[b]
+                fx = set(facts_)
+                for st in B['stmts']:
+                    for y in walk(st):
+                        if y.get('k') == 'bin' and y['op'].endswith('=') and y['op'] not in ('==', '!=', '<=', '>=') and strip(y['l']) is not None:
+                            if strip(y['l']).get('id') == man:
+                                fx.add('man')
+                            if strip(y['l']).get('id') == flag and (cval(y['r']) == 1 or y['op'] == '|='):
+                                fx.add('flag')
+                t = B.get('term')
+                succs = B['succs']
+                if t and t.get('cond') is not None and len(succs) == 2:
+                    c = strip_expect(t['cond'])
+                    neg = False
+                    while c is not None and c.get('k') == 'un' and c['op'] == '!':
+                        neg = not neg
+                        c = strip_expect(c['e'])
+                    zero_true = None
+                    if c is not None and c.get('k') == 'bin' and c['op'] in ('==', '!=') and cval(c['r']) == 48 and any(x.get('k') == 'sub' for x in walk(c['l'])):
+                        zero_true = (c['op'] == '==') != neg
+                    for k, x in enumerate(succs):
+                        if x is None or (x != h and x in trail):
+                            continue
+                        fy = set(fx)
+                        if zero_true is not None and ((k == 0) == zero_true):
+                            fy.add('zero')
+                        rec(x, trail + [b], fy)
+                    return
+                for x in succs:
+                    if x is not None and (x == h or x not in trail):
+                        rec(x, trail + [b], fx)
+            if start is None:
+                continue
+            rec(start, [h], set())
+            if not any(('man' in fx or 'flag' in fx) for _, fx in paths):
+                continue        # not a mantissa loop (exponent digits)
+            bad = [tr for tr, fx in paths if not ({'man', 'flag', 'zero'} & fx)]
+            n += 1
+            loc = locline(f.blocks[h]['term']['loc'])
+            rep.check(not bad, 'E2.trunc-set', f.qn, 'digit loop at %s: every body path adds the digit to the mantissa, sets the truncation flag, or handles only \'0\' (%d paths)' % (loc, len(paths)), loc,
+                      'a path through blocks %s consumes a digit without accumulating it and without setting the truncation flag' % (bad[0] if bad else ''), facts.config)
+    rep.require(n >= 3, 'C04.i: mantissa digit loops found: %d' % n)
